@@ -69,6 +69,7 @@ type Loop struct {
 	wc    *writeConstraint
 	entryPhi map[*ssa.Phi]Val
 	entryPhiTmp map[*ssa.Phi]Val
+	preState  *State // state when the loop was entered (for entry(e) in invariants)
 	unrolling bool
 	backRecs  []inEdge
 	liveOut   []ssa.Value
@@ -1289,6 +1290,11 @@ func (fr *Frame) typeAssert(in *ssa.TypeAssert, st *State) {
 		if it := in.AssertedType.Underlying().(*types.Interface); it.NumMethods() == 0 || types.Implements(in.X.Type(), it) {
 			// the static type already guarantees the methods: only nil-ness is tested
 			ok = Ne(ITag(x), IntLit(0))
+		} else if tv, isNum := numVal(ITag(x)); isNum && tv.IsInt64() && tv.Int64() >= 1 && int(tv.Int64()) <= len(fc.eng.ti.idxType) {
+			// dynamic type known: decide the assertion now
+			ok = BoolLit(types.Implements(fc.eng.ti.idxType[tv.Int64()-1], in.AssertedType.Underlying().(*types.Interface)))
+		} else if tv, isNum := numVal(ITag(x)); isNum && tv.Sign() == 0 {
+			ok = TFalse
 		} else {
 			ok = And(Ne(ITag(x), IntLit(0)), app(SBool, fc.implPred(in.AssertedType), ITag(x)))
 		}
